@@ -31,31 +31,38 @@ def rule_cut(ctx, R="C20.1"):
         if fn is None:
             ctx.missing(R, key)
             continue
-        loops = [n for n in walk(fn["body"]) if n["k"] == "While"]
+        import sgrep
+
+        loops = [n for n in walk(fn["body"]) if n["k"] in ("While", "Loop") and not [c for c in (conditions_to(fn["body"], n) or []) if c[0] == "loop"]]
         if len(loops) != 1:
-            ctx.missing(R, key + "/loop", "expected one while loop, found %d" % len(loops))
+            ctx.missing(R, key + "/loop", "expected one fixpoint loop, found %d" % len(loops))
             continue
         lp = loops[0]
-        flag = render(strip(lp["cond"]))
-        ctx.check(R, key + "/loops-while-changed", re.fullmatch(r"\w+", flag) is not None, "loop condition: %s" % flag, site(CFG, lp))
+        lbody = lp["body"]
+        flag = render(strip(lp["cond"])) if lp["k"] == "While" else None
+        if lp["k"] == "While":
+            ctx.check(R, key + "/loops-while-changed", re.fullmatch(r"\w+", flag) is not None, "loop condition: %s" % flag, site(CFG, lp))
         le = let_env(fn["body"], lp)
         starts = [k for k, v in le.items() if render(strip(v)).replace(" ", "") == "Instant::now()"]
         ctx.check(R, key + "/own-clock-started-before-the-loop", len(starts) == 1, "clocks: %s" % starts, site(CFG, fn))
         clock = starts[0] if starts else "start"
-        # the time test
-        tests = [n for n in walk(lp["body"]) if n["k"] == "If" and "elapsed()" in render(n["cond"])]
+        # the time test: an `if` of the loop body whose condition (through the loop body's lets) compares the own clock's
+        # elapsed time with the time box
+        lenv = sgrep.lets(lbody)
+        forms = ["%s.elapsed() > MAX_ANALYSIS_DURATION" % clock, "%s.elapsed() >= MAX_ANALYSIS_DURATION" % clock, "MAX_ANALYSIS_DURATION < %s.elapsed()" % clock, "MAX_ANALYSIS_DURATION <= %s.elapsed()" % clock]
+        tests = [n for n in walk(lbody) if n["k"] == "If" and ("elapsed()" in render(n["cond"]) or any("elapsed()" in render(lenv[x["path"]]) for x in walk(n["cond"]) if x["k"] == "Path" and x["path"] in lenv) or any("elapsed()" in render(lenv[y["path"]]) for x in walk(n["cond"]) if x["k"] == "Path" and x["path"] in lenv for y in walk(lenv[x["path"]]) if y["k"] == "Path" and y["path"] in lenv))]
         if len(tests) != 1:
             ctx.bad(R, key + "/time-box-test", "expected exactly one elapsed-time test inside the loop, found %d" % len(tests), site(CFG, lp))
             continue
         t = tests[0]
         ct = render(t["cond"]).replace(" ", "")
-        okc = ct in ("(%s.elapsed()>MAX_ANALYSIS_DURATION)" % clock, "(%s.elapsed()>=MAX_ANALYSIS_DURATION)" % clock, "(MAX_ANALYSIS_DURATION<%s.elapsed())" % clock)
+        okc = any(sgrep.match(sgrep.pattern(f_), t["cond"], {}, lenv) for f_ in forms)
         ctx.check(R, key + "/time-box-test/compares-own-clock-with-the-time-box", okc, "condition: %s" % ct, site(CFG, t))
-        cs = conditions_to(lp["body"], t) or []
+        cs = conditions_to(lbody, t) or []
         ctx.check(R, key + "/time-box-test/every-iteration", not cs, "the test is only reached under %s" % facts_str(cs), site(CFG, t))
         # the cut edge
-        stops = [n for n in walk(t["then"]) if (n["k"] == "Assign" and render(n["l"]) == flag and render(n["r"]) == "false") or n["k"] in ("Break", "Return")]
-        ctx.check(R, key + "/cut/stops-the-loop", len(stops) >= 1 and not (conditions_to(t["then"], stops[0]) or []), "the cut must clear `%s` (or leave the loop) unconditionally" % flag, site(CFG, t))
+        stops = [n for n in walk(t["then"]) if (flag and n["k"] == "Assign" and render(n["l"]) == flag and render(n["r"]) == "false") or n["k"] in ("Break", "Return")]
+        ctx.check(R, key + "/cut/stops-the-loop", len(stops) >= 1 and not (conditions_to(t["then"], stops[0]) or []), "the cut must clear the loop flag (or leave the loop) unconditionally", site(CFG, t))
         writes = [render(n)[:60] for n in walk(t["then"]) if (n["k"] == "MethodCall" and n["method"] in WRITERS) or (n["k"] == "Call" and not render(n["func"]).startswith(("debug", "trace", "warn")))]
         ctx.check(R, key + "/cut/writes-nothing", not writes, "calls on the cut edge: %s" % writes, site(CFG, t))
         ctx.check(R, key + "/cut/no-else", t["else"] is None, "the time test must not select between two propagation modes", site(CFG, t))
@@ -63,19 +70,29 @@ def rule_cut(ctx, R="C20.1"):
         arith = [render(n)[:80] for n in walk(fn["body"]) if n["k"] == "Binary" and n["op"] in ("-", "-=") and ("elapsed()" in render(n) or "DURATION" in render(n))]
         ctx.check(R, key + "/no-duration-subtraction", not arith, "Duration subtraction panics on underflow: %s" % arith, site(CFG, fn))
         # the iteration visits every block, result or-ed into the flag
-        fors = [n for n in walk(lp["body"]) if n["k"] == "For"]
-        okf = len(fors) == 1 and render(strip(fors[0]["iter"])).replace(" ", "") == "self.iter_mut()" and not (conditions_to(lp["body"], fors[0]) or [])
+        fors = [n for n in walk(lbody) if n["k"] == "For"]
+        okf = len(fors) == 1 and render(strip(fors[0]["iter"])).replace(" ", "") == "self.iter_mut()" and not (conditions_to(lbody, fors[0]) or [])
         ctx.check(R, key + "/iteration-over-all-blocks", okf, render(fors[0]["iter"]) if fors else "no loop over blocks", site(CFG, lp))
-        if fors:
+        if lp["k"] == "Loop":
+            # loop form: a per-iteration flag, false at the top of the body, and `if !flag { break }` on every iteration
+            tops = [s_ for s_ in lbody["stmts"] if s_["k"] == "Local" and s_["pat"]["k"] == "PIdent" and s_["pat"].get("mut") and s_["init"] is not None and render(strip(s_["init"])) == "false"]
+            flag = tops[0]["pat"]["name"] if len(tops) == 1 else None
+            exits_ = [n for n in lbody["stmts"] if n["k"] == "ExprStmt" and n["e"]["k"] == "If" and n["e"] is not t and any(x["k"] == "Break" for x in walk(n["e"]["then"]))]
+            okx = flag is not None and len(exits_) == 1 and render(strip(exits_[0]["e"]["cond"])).replace(" ", "") in ("!%s" % flag,) and exits_[0]["e"]["else"] is None
+            ctx.check(R, key + "/flag-initially-true", flag is not None, "loop form: the body runs at least once", site(CFG, fn))
+            ctx.check(R, key + "/flag-reset-each-iteration", okx, "loop form: `let mut changed = false` at the top of the body and `if !changed { break }` once per iteration", site(CFG, lp))
+        if fors and flag:
             t2 = render(fors[0]["body"]).replace(" ", "")
-            import sgrep
             lv = render(fors[0]["pat"])
-            okf2 = sgrep.has(fors[0]["body"], "__f = __f || __b.propagate_%s(__e)" % kind, None, {"__f": flag, "__b": lv}) or sgrep.has(fors[0]["body"], "__f = __b.propagate_%s(__e) || __f" % kind, None, {"__f": flag, "__b": lv}) or sgrep.has(fors[0]["body"], "__f |= __b.propagate_%s(__e)" % kind, None, {"__f": flag, "__b": lv})
+            okf2 = sgrep.has(fors[0]["body"], "__f = __f || __b.propagate_%s(__e)" % kind, None, {"__f": flag, "__b": lv}) or sgrep.has(fors[0]["body"], "__f = __b.propagate_%s(__e) || __f" % kind, None, {"__f": flag, "__b": lv}) or sgrep.has(fors[0]["body"], "__f |= __b.propagate_%s(__e)" % kind, None, {"__f": flag, "__b": lv}) or sgrep.has(fors[0]["body"], "if !__f { __f = __b.propagate_%s(__e); }" % kind, None, {"__f": flag, "__b": lv})
             ctx.check(R, key + "/flag-accumulates-updates", okf2 and len(fors[0]["body"]["stmts"]) == 1, t2, site(CFG, fors[0]))
-        # flag reset at the top of each iteration and true initially
-        ctx.check(R, key + "/flag-initially-true", flag in le and render(strip(le[flag])) == "true", "let %s = %s" % (flag, render(le.get(flag)) if flag in le else "?"), site(CFG, fn))
-        first = lp["body"]["stmts"][0] if lp["body"]["stmts"] else None
-        ctx.check(R, key + "/flag-reset-each-iteration", first is not None and render(first).replace(" ", "") == "%s=false;" % flag, render(first) if first else "?", site(CFG, lp))
+        elif fors:
+            ctx.bad(R, key + "/flag-accumulates-updates", "no loop flag recognised", site(CFG, fors[0]))
+        if lp["k"] == "While":
+            # flag reset at the top of each iteration and true initially
+            ctx.check(R, key + "/flag-initially-true", flag in le and render(strip(le[flag])) == "true", "let %s = %s" % (flag, render(le.get(flag)) if flag in le else "?"), site(CFG, fn))
+            first = lbody["stmts"][0] if lbody["stmts"] else None
+            ctx.check(R, key + "/flag-reset-each-iteration", first is not None and render(first).replace(" ", "") == "%s=false;" % flag, render(first) if first else "?", site(CFG, lp))
     mx = find_item(CFG, "Const", "MAX_ANALYSIS_DURATION")
     if mx is None:
         ctx.missing(R, "MAX_ANALYSIS_DURATION")
